@@ -120,7 +120,7 @@ fn scalar(rng: &mut Rng) -> Nj {
 }
 
 /// applies one mutation; returns (description, expectation) or None when not applicable
-fn mutate(rng: &mut Rng, doc: &mut Nj) -> Option<(String, &'static str)> {
+fn mutate(rng: &mut Rng, doc: &mut Nj, root: &str) -> Option<(String, &'static str)> {
     let mut all = vec![];
     paths(doc, &mut vec![], &mut all);
     let pick_where = |rng: &mut Rng, doc: &Nj, f: &dyn Fn(&Nj) -> bool| -> Option<Vec<usize>> {
@@ -203,7 +203,8 @@ fn mutate(rng: &mut Rng, doc: &mut Nj) -> Option<(String, &'static str)> {
             if let Nj::Int(i) = n {
                 *n = Nj::Flt((*i as f64).to_bits());
             }
-            Some(("float literal in an integer position".into(), "reject"))
+            // inside an untagged enum (Stop) the failure of one variant lets the next one match: no fixed expectation
+            Some(("float literal in an integer position".into(), if root == "Solution" { "any" } else { "reject" }))
         }
         9 => {
             let p = pick_where(rng, doc, &|n| !matches!(n, Nj::Arr(_) | Nj::Obj(_)))?;
@@ -279,7 +280,7 @@ pub fn gen_part1(rng: &mut Rng, tier: Tier, cases: &mut Vec<Value>) {
         let mut expect = "same";
         for _ in 0..n_mut {
             for _attempt in 0..6 {
-                if let Some((note, e)) = mutate(rng, &mut doc) {
+                if let Some((note, e)) = mutate(rng, &mut doc, root) {
                     notes.push(note);
                     expect = match (expect, e) {
                         ("same", "same") => "same",
